@@ -21,7 +21,13 @@ Three parts (DESIGN 5/C18; "partial by nature"):
     strided, Fortran; float64/float32/int64/int32; ndarray / pandas / list):
     bit-for-bit snapshots of every argument (and of the buffer a strided view
     lives in) before/after the call, and two consecutive calls under the same
-    numpy seed compared exactly;
+    numpy seed compared exactly; the same on VALUE CLASSES of the samples handed
+    over (section "Value classes": ties, censored, rounded, zeros, a constant
+    variable, repeated observations, missing / infinite values, negative values,
+    extreme magnitudes, 1-3 and hundreds of observations; pandas inputs with a
+    time index) for the input classes in which a function can receive the
+    caller's own float64 memory, and on further combinations of options
+    (OPTION_VARIANTS);
  4. object histories (the quantifier's "histories"; section "object histories"
     below): ONE Grid / Catchment taken through a random sequence of its public
     operations (state-defining calls, derived-state calls, observers, grid-level
@@ -114,10 +120,11 @@ class Arr:
 #   constant  one variable constant
 #   duprows   whole observations (all variables) repeated
 #   nans      missing values first, last and in a quarter of the positions (float classes)
+#   infs      a +inf and a -inf among the values of one variable (float classes)
 #   shifted   median subtracted: an exact zero, half of the values negative
 #   scaled    everything times 2**-40 / 2**40 (thorough: also 2**-300 / 2**300): exact, keeps ties
-#   small     n = 2, 3 observations;  large  n = 600 (thorough 1500) observations
-VCLASSES = ("ties", "censored", "rounded", "zeros", "constant", "duprows", "nans", "shifted", "scaled",
+#   small     n = 1, 2, 3 observations;  large  n = 600 (thorough 1500) observations
+VCLASSES = ("ties", "censored", "rounded", "zeros", "constant", "duprows", "nans", "infs", "shifted", "scaled",
             "small", "large")
 _VC = {"vc": None, "key": "", "used": False, "thorough": False}    # value class of the call being built
 
@@ -168,6 +175,10 @@ def shape_values(a, vc, vrng, floats=True):
             elif vc == "nans":
                 if floats:
                     c[[0, n - 1] + vrng.sample(range(n), n // 4)] = np.nan
+            elif vc == "infs":
+                if floats:
+                    i, k = vrng.sample(range(n), 2)
+                    c[i], c[k] = np.inf, -np.inf
             elif vc == "shifted":
                 c[:] = c - np.sort(c)[n // 2]
             else:
@@ -1700,7 +1711,9 @@ def run_histories(ctx, rng, orc_fail):
 def run(ctx):
     ctx.rule = ("every public function of the property's list (catalogue in harness/props/c18.py) x input classes "
                 "(ndarray C-contiguous / strided view inside a larger buffer / Fortran order; float64, float32, int64, "
-                "int32; pandas Series/DataFrame; nested lists) x data seeds: bit-for-bit snapshot of every argument "
+                "int32; pandas Series/DataFrame; nested lists) x data seeds, and x value classes of the samples (ties, censored, "
+                "rounded, zeros, constant variable, repeated observations, NaN, +-inf, negative, scaled by 2**+-40, n = 1..3, "
+                "n = 600; also as cell values of the grid histories): bit-for-bit snapshot of every argument "
                 "and of the surrounding buffer before/after, two consecutive calls under the same numpy seed compared "
                 "exactly; object histories: one Grid / Catchment through a random sequence of public operations, after "
                 "every step the arrays passed to this or an earlier call and the arrays taken from the object's accessors "
@@ -1797,16 +1810,15 @@ def collect(ctx):
             if spec.classes:
                 classes = [spec.classes[r % len(spec.classes)]]
             elif ctx.thorough:
-                classes = direct + other + [("mix", str(rng.randrange(10 ** 6)), "") for _ in range(2)]
+                classes = direct + other + [("mix", str(rng.randrange(10 ** 6)), "")]
             else:       # quick: one direct class per (function, value class), a converting one for every third
                 classes = [direct[r % 3]]
                 if r % 3 == 0:
                     classes.append((other + [("mix", str(rng.randrange(10 ** 6)), "")])[(r // 3) % 4])
             for cls in classes:
-                for k in range(ctx.scale(1, 2)):
-                    n = (rng.choice([2, 3]) if vc == "small" else ctx.scale(600, 1500) if vc == "large" else
-                         rng.choice([8, 9, 12, 20]) if not ctx.thorough else rng.choice([5, 8, 13, 40, 150]))
-                    todo.append((spec.name, cls, rng.randrange(10 ** 9), n, vc))
+                n = (rng.choice([1, 2, 3]) if vc == "small" else ctx.scale(600, 1500) if vc == "large" else
+                     rng.choice([8, 9, 12, 20]) if not ctx.thorough else rng.choice([5, 8, 13, 40, 150]))
+                todo.append((spec.name, cls, rng.randrange(10 ** 9), n, vc))
     byname = {s.name: s for s in catalogue}
     pipe_seen = set()
     takes_sample = {}      # function -> a build of it contained a sample of observations
@@ -1934,8 +1946,15 @@ def collect(ctx):
         if len(ctx.samples) < 6 and err is None and rng.random() < 0.02:
             ctx.sample({"fn": fname, "class": list(cls), "arguments": shown, "outcome": status})
 
-        # -- pipeline observation -> Coq case
-        if spec.site and recs:
+        # -- pipeline observation -> Coq case.  The layout classes of the model assume shapes without unit axes
+        # (an array with an axis of length <= 1 is C- and Fortran-contiguous at once, `squeeze` drops the axis:
+        # notes/C18.md, G): such arguments (value class `small`, n = 1) are decided by the search alone.
+        def unit_axis(o):
+            try:
+                return any(k <= 1 for k in np.shape(o))
+            except Exception:
+                return False
+        if spec.site and recs and not any(unit_axis(args.get(an)) for an in spec.margs):
             descs = [coq_desc(args.get(an)) for an in spec.margs]
             selfd = coq_desc(args["self"]) if spec.selfkind else None
             if all(d is not None for d in descs):
